@@ -11,7 +11,7 @@
      port   1..5 digits, optional
      scheme omitted (udp) or one of scheme_table: udp tcp tls https http h3 quic doq tcp+pipeline tls+pipeline
      path   with an explicit scheme: nothing or anything starting with '/', '?' or '#' *)
-From Mos Require Import Base.Prelude Net.Addr Net.TlsCfg Net.AddrProofs Net.UpCfg Net.UpCfgProofs Net.UpRouter Net.UpRouterProofs.
+From Mos Require Import Base.Prelude Net.Addr Net.TlsCfg Net.AddrProofs Net.UpCfg Net.UpCfgProofs Net.UpRouter Net.UpRouterProofs Net.UpHistory Net.UpHistoryProofs.
 From Coq Require Import String Ascii.
 
 Definition s2l (s : string) : list N := map N_of_ascii (list_ascii_of_string s).
@@ -582,3 +582,85 @@ Example C17_example_lsrouter :
   lsr_case [(o true true, None); (o true false, None)] = Some [false; true] /\
   lsr_case [(o true false, None); (o false true, None)] = None.
 Proof. vm_compute. repeat split. Qed.
+
+(* --- HISTORIES: what an upstream keeps between connections (round 7) ------------------------------------- *)
+(* Net/UpHistory.v: [upr_history p us [] steps peer] = the verdicts of a sequence of exchanges — step i is a NEW
+   connection of the i-th upstream of the process to ONE server presenting [peer] — under a TLS resumption policy:
+   SessNone (the code: the client tls.Config has no session cache), SessPerUpstream, SessShared (one cache for all
+   upstreams; crypto/tls keys it by server name and does not re-verify the chain on resumption). *)
+
+(* HISTORY INDEPENDENCE (extends C17_upstreams_independent_verdict to sequences): without resumption state, and also
+   with one session cache per upstream, every step's verdict is the verdict of that step's OWN ENTRY ALONE
+   (upc_exchange_ok of the entry: exactly its ca / system roots unless its insecure_skip_verify) — whatever
+   exchanges any entry performed before. *)
+Theorem C17_history_independent : forall (cert : Type) (chains_to : ca_pool -> cert -> bool)
+    (name_matches : cert -> list N -> bool) (time_valid : cert -> bool) p cs us steps peer,
+  p = SessNone \/ p = SessPerUpstream ->
+  upr_init_router cs = Ok us ->
+  (forall i, In i steps -> (i < List.length cs)%nat) ->
+  upr_history cert chains_to name_matches time_valid p us [] steps peer =
+  map (fun i => match nth_error cs i with
+                | Some c => upc_exchange_ok cert chains_to name_matches time_valid c peer
+                | None => false end) steps.
+Proof. exact history_independent_router. Qed.
+Print Assumptions C17_history_independent.
+
+(* the same over the upstreams of SEVERAL routers of one process (any list of built upstreams) *)
+Theorem C17_history_independent_process : forall (cert : Type) (chains_to : ca_pool -> cert -> bool)
+    (name_matches : cert -> list N -> bool) (time_valid : cert -> bool) p us steps peer,
+  p = SessNone \/ p = SessPerUpstream ->
+  upr_history cert chains_to name_matches time_valid p us [] steps peer =
+  map (fun i => match nth_error us i with
+                | Some (_, u) => upr_accepts cert chains_to name_matches time_valid u peer
+                | None => false end) steps.
+Proof. exact history_independent. Qed.
+Print Assumptions C17_history_independent_process.
+
+(* REFUTED for a shared resumption state: entries "good" (configured ca) and "pinned" (other trust) for the same
+   server name, server certificate of the configured ca: pinned refuses, good exchanges, and then pinned — on a new
+   connection — exchanges too (one router, or two routers of one process); with no cache / a cache per upstream it
+   keeps refusing. *)
+Theorem C17_shared_resumption_refuted :
+  upr_history_case SessShared [[uph_w_good; uph_w_pinned]] [1%nat; 0%nat; 1%nat] (Some CValid) = Some [false; true; true] /\
+  upr_history_case SessShared [[uph_w_good]; [uph_w_pinned]] [1%nat; 0%nat; 1%nat] (Some CValid) = Some [false; true; true] /\
+  upr_history_case SessNone [[uph_w_good; uph_w_pinned]] [1%nat; 0%nat; 1%nat] (Some CValid) = Some [false; true; false] /\
+  upr_history_case SessPerUpstream [[uph_w_good; uph_w_pinned]] [1%nat; 0%nat; 1%nat; 0%nat; 1%nat] (Some CValid) =
+    Some [false; true; false; true; false].
+Proof. exact shared_resumption_refuted. Qed.
+Print Assumptions C17_shared_resumption_refuted.
+
+(* --- NAMES are resolved per connection (round 7) ---------------------------------------------------------- *)
+(* The dial target is the TEXT host:port (ep_dial).  [rs_env]: at connection number k, the addresses a host text
+   denotes.  For every URL of the grammar (a domain name in particular) x every scheme: constructing the upstream
+   does not consult the environment at all, and the k-th connection goes to what the host denotes AT CONNECTION k,
+   on the URL's port (or the scheme's default) ... *)
+Theorem C17_resolved_per_connection : forall st k h p path env n,
+  scheme_entry st k -> path_ok st path -> wf_host h = true -> wf_port_opt p = true ->
+  let sc := fst (fst k) in
+  exists ep, rs_new_upstream env (url_of st h p path) [] = Ok ep /\
+    rs_conn_targets env ep n = map (fun a => join_host_port a (port_or_default sc p)) (env n (host_name h)).
+Proof. exact resolved_per_connection. Qed.
+Print Assumptions C17_resolved_per_connection.
+
+(* ... and likewise for a dial_addr that is a name *)
+Theorem C17_resolved_per_connection_override : forall st k h p path dh dpo env n,
+  scheme_entry st k -> path_ok st path -> wf_host h = true -> wf_port_opt p = true ->
+  wf_host dh = true -> wf_port_opt dpo = true ->
+  let sc := fst (fst k) in
+  exists ep, rs_new_upstream env (url_of st h p path) (dial_text dh dpo) = Ok ep /\
+    rs_conn_targets env ep n = map (fun a => join_host_port a (port_or_default sc dpo)) (env n (host_name dh)).
+Proof. exact resolved_per_connection_override. Qed.
+Print Assumptions C17_resolved_per_connection_override.
+
+(* REFUTED for "resolve once, at construction": the name moves from 127.0.0.1 to 127.0.0.2 — connection 2 goes to
+   127.0.0.2:853, the resolve-once mapping still says 127.0.0.1:853; and a name that does not resolve at construction
+   makes the resolve-once construction fail where the real one succeeds and connects later. *)
+Theorem C17_resolve_once_refuted :
+  (exists ep, rs_new_upstream rs_w_move rs_w_url [] = Ok ep /\
+     rs_conn_targets rs_w_move ep 2 = [s2l "127.0.0.2:853"] /\
+     rs_once_targets rs_w_move ep 2 = [s2l "127.0.0.1:853"] /\
+     rs_once_targets rs_w_move ep 2 <> rs_conn_targets rs_w_move ep 2) /\
+  (is_ok (rs_new_upstream rs_w_late rs_w_url []) = true /\ is_ok (rs_once_new_upstream rs_w_late rs_w_url []) = false /\
+   rs_case rs_w_url [] rs_w_name (fun k => match k with O => [] | _ => [rs_w_a1] end) 1 = Some [s2l "127.0.0.1:853"]).
+Proof. exact resolve_once_refuted. Qed.
+Print Assumptions C17_resolve_once_refuted.
